@@ -182,6 +182,24 @@ func main() {
 			out.Violate("listing-inconsistent", pr, map[string]any{"kind": "run", "case": c})
 		}
 	}
+	// ---- 2b. population waves: above, below and above a size threshold again ----
+	nw := 10
+	if a.Thorough() {
+		nw = 150
+	}
+	for i := 0; i < nw; i++ {
+		ar := 1 + rng.Intn(2)
+		ops := mrun.Waves(rng, ar, func(k int) *mrun.Value { return &mrun.Value{Ty: "int", I: int64(k)} })
+		c, r := mrun.Execute(ar, "int", vlib.Pick(rng, kinds), ops)
+		out.Add(mrun.CoqRunCase(out.NextID(), c), c, true)
+		out.Count(fmt.Sprintf("waves/arity%d", ar))
+		if cl, what := mrun.CheckRun(c); cl != "" {
+			out.Violate(cl, what, map[string]any{"kind": "run", "case": c})
+		}
+		for _, pr := range r.Prob {
+			out.Violate("listing-inconsistent", pr, map[string]any{"kind": "run", "case": c})
+		}
+	}
 	// concurrent first touch of one tuple (search aid): equal tuples must be
 	// handed the same datum, whatever the schedule
 	trials := 4000
